@@ -2,7 +2,9 @@ import QbVerif.Model.LogFormat
 import QbVerif.Driver.Util
 
 /-! Line-protocol driver `qb_logformat` for the C13 model (ops as in harness/log/fmt_drv.c).
-    `qb_logformat original` runs the pre-repair variant of the model. -/
+    `qb_logformat original` runs the pre-repair variant of the model.
+    `cut` (a direct call of the static helper `_strcpy_cutoff`) is only executed with `buf_len ≥ 1`;
+    `buf_len = 0` cannot come from the library's callers and is answered `EDOM` on both sides. -/
 namespace QbVerif.Driver.LogFormat
 open QbVerif.LogFormat QbVerif.Driver
 
@@ -93,6 +95,8 @@ def step (st : St) (ws : List String) : St × List String :=
       | none => oob
       | some t => (st, [toHex t])
   | ["cut", cap, src, cutoff, ralign, buflen] =>
+    -- outside the domain the callers can produce (Props.C13.caller_buf_len_ge_two): not executed
+    if buflen.toNat?.getD 0 == 0 then (st, ["EDOM"]) else
     let (m, ret) := (Mem.fresh (cap.toNat?.getD 0) 170).cutoffAt v 0 ((parseHex src).getD [])
       (cutoff.toNat?.getD 0) (ralign != "0") (buflen.toNat?.getD 0)
     if m.oob then oob else (st, [s!"{ret} {report m}"])
